@@ -208,7 +208,24 @@ impl Peer {
             }),
             Owed::PingResp => Pkt::PingResp,
         };
-        let b = encode_opts(self.ver, &pkt, plan.long_acks);
+        let mut pkt = pkt;
+        if self.ver == Ver::V5 && plan.ack_props_mode != 0 {
+            use crate::refcodec::PropVal;
+            let user = |k: &str| (38u8, PropVal::Pair(k.to_string(), format!("v{}", o.pid().unwrap_or(0))));
+            let reason = (31u8, PropVal::Str(format!("why{}", o.pid().unwrap_or(0))));
+            let props = match plan.ack_props_mode {
+                1 => vec![user("k1"), reason],
+                2 => vec![reason, user("k1")],
+                _ => vec![user("k1"), reason, user("k2")],
+            };
+            match &mut pkt {
+                Pkt::PubAck(a) | Pkt::PubRec(a) => a.props = props,
+                Pkt::SubAck(x) | Pkt::UnsubAck(x) => x.props = props,
+                _ => {}
+            }
+        }
+        let long = plan.long_acks || (self.ver == Ver::V5 && plan.ack_props_mode != 0);
+        let b = encode_opts(self.ver, &pkt, long);
         (pkt, b)
     }
 
